@@ -84,3 +84,193 @@ def call_func(self, path, f, args, kwargs, node):
 
 
 _V.Config.call_func = call_func
+
+
+# ---------------------------------------------------------------------------
+# opaque strings with a known literal prefix, and two predicates on them (AT result codes are told apart by their
+# literal head: 'OK', 'ERROR', '+CME ERROR: n' vs '+BRSF: ...').  Natively plain str operations.
+# ---------------------------------------------------------------------------
+from . import models as _M  # noqa: E402
+from . import models_calls as _MC  # noqa: E402
+from . import seqspec as _S  # noqa: E402
+from .values import Sym, Unknown, Ref, Obj  # noqa: E402
+
+
+def _opaque(prefix=''):
+    o = OpaqueStr()
+    o.prefix = prefix
+    return o
+
+
+def _ev_JoinedStr2(self, n):
+    r = ev_JoinedStr(self, n)
+    if isinstance(r, OpaqueStr):
+        # known literal head: leading constants, concrete interpolations, and the head of an interpolated opaque string
+        lit = []
+        for v in n.values:
+            if isinstance(v, ast.Constant):
+                lit.append(v.value)
+                continue
+            if isinstance(v, ast.FormattedValue) and v.format_spec is None and v.conversion == -1 and _pure_str_expr(v.value):
+                try:
+                    x = self.eval(v.value)
+                except (E.Unsupported, E.PyExc):
+                    break
+                if type(x) is str or type(x) is int:
+                    lit.append(format(x))
+                    continue
+                if isinstance(x, OpaqueStr):
+                    lit.append(getattr(x, 'prefix', '') or '')
+            break
+        r.prefix = ''.join(lit)
+    return r
+
+
+E.Path.ev_JoinedStr = _ev_JoinedStr2
+
+_orig_call_method = _MC.call_method
+
+
+def call_method(ex, recv, name, args, kwargs, node=None):
+    if isinstance(recv, str) and name == 'format' and not all(ex.is_conc(a) for a in args):
+        return _opaque(recv.split('{')[0])  # literal text before the first replacement field
+    return _orig_call_method(ex, recv, name, args, kwargs, node)
+
+
+_MC.call_method = call_method
+_M.call_method = call_method
+
+
+def s_eq(s, lit):
+    """s == lit for a string s that may be an f-string result"""
+    return s == lit
+
+
+def s_startswith(s, lit):
+    return s.startswith(lit)
+
+
+def _q_s_eq(ex, args, kwargs):
+    s, lit = args
+    if isinstance(s, str):
+        return s == lit
+    p = getattr(s, 'prefix', None)
+    if isinstance(s, OpaqueStr) and p and not lit.startswith(p):
+        return False  # s starts with p, lit does not
+    raise E.Unsupported(f'equality of an opaque string (known prefix {p!r}) with {lit!r}')
+
+
+def _q_s_startswith(ex, args, kwargs):
+    s, lit = args
+    if isinstance(s, str):
+        return s.startswith(lit)
+    p = getattr(s, 'prefix', None)
+    if isinstance(s, OpaqueStr) and p:
+        if p.startswith(lit):
+            return True
+        if not lit.startswith(p):
+            return False
+    raise E.Unsupported(f'prefix test of an opaque string (known prefix {p!r}) with {lit!r}')
+
+
+_S.SPEC_FORMS[s_eq] = _q_s_eq
+_S.SPEC_FORMS[s_startswith] = _q_s_startswith
+
+
+# ---------------------------------------------------------------------------
+# skeleton profile: conversions of uninterpreted *contents*
+#   int(<symbolic bytes / opaque str>)            -> uninterpreted value (assumed well-formed: does not raise)
+#   StrEnum(<opaque str>)                          -> uninterpreted member; inside a try block the ValueError outcome
+#                                                     is explored as well (the code itself anticipates it)
+#   getattr(obj, name, default) on a modelled instance: decided by the class (handlers are class attributes)
+# ---------------------------------------------------------------------------
+_orig_int = _MC.CLASS_MODELS[int]
+
+
+def m_int(ex, *args, **kw):
+    if ex.skeleton and len(args) == 1 and (isinstance(args[0], OpaqueStr) or (isinstance(args[0], Sym) and args[0].k == 'bytes')
+                                            or (isinstance(args[0], Ref) and _M.is_byteslike(ex, args[0]) and not isinstance(ex.as_bytes_value(args[0]), bytes))):
+        ex.abstraction_used = True
+        return Unknown('int()')
+    return _orig_int(ex, *args, **kw)
+
+
+_MC.CLASS_MODELS[int] = m_int
+
+_orig_enum_call = _MC.enum_call
+
+
+def enum_call(ex, cls, args, kwargs):
+    v = _M.plain(args[0]) if args else None
+    if ex.skeleton and isinstance(v, OpaqueStr):
+        ex.abstraction_used = True
+        if getattr(ex, 'try_depth', 0) > 0 and ex.decide([True, True], 'enum conversion in try') == 1:
+            ex.raise_(ValueError, 'not a valid enum value')
+        return Unknown(f'{cls.__name__}()')
+    return _orig_enum_call(ex, cls, args, kwargs)
+
+
+_MC.enum_call = enum_call
+_M.enum_call = enum_call
+
+_orig_try = E.Path.st_Try
+
+
+def st_Try(self, s):
+    self.try_depth = getattr(self, 'try_depth', 0) + (1 if s.handlers else 0)
+    try:
+        # only the protected block counts; handlers / finally run outside it
+        return _orig_try(self, s)
+    finally:
+        self.try_depth -= 1 if s.handlers else 0
+
+
+E.Path.st_Try = st_Try
+
+_orig_getattr = _MC.NATIVE_MODELS[getattr]
+
+
+def m_getattr(ex, o, name, *default):
+    if default and ex.skeleton and isinstance(name, str) and isinstance(o, Ref):
+        ho = ex.obj(o)
+        if isinstance(ho, Obj) and ho.cls is not None and name not in ho.fields and not (ho.model is not None and name in ho.model.methods):
+            if _MC.class_lookup(ho.cls, name)[0] is None and _MC.class_lookup(ho.cls, '__getattr__')[0] is None:
+                return default[0]
+    return _orig_getattr(ex, o, name, *default)
+
+
+_MC.NATIVE_MODELS[getattr] = m_getattr
+
+
+# skeleton profile: a modelled builtin that cannot interpret an argument because it is (or contains) an uninterpreted
+# value yields an uninterpreted value, like any other call the skeleton does not interpret
+def _tainted(ex, v, depth=0):
+    if isinstance(v, Unknown):
+        return True
+    if depth > 3:
+        return False
+    if isinstance(v, (tuple, list)):
+        return any(_tainted(ex, x, depth + 1) for x in v)
+    if isinstance(v, E.ConcIter):
+        return any(_tainted(ex, x, depth + 1) for x in v.items)
+    if isinstance(v, Ref):
+        ho = ex.obj(v)
+        if type(ho).__name__ == 'LObj' and ho.items is not None:
+            return any(_tainted(ex, x, depth + 1) for x in ho.items)
+    return False
+
+
+def _skeleton_fallback(orig):
+    def wrapped(ex, f, args, kwargs, node=None):
+        try:
+            return orig(ex, f, args, kwargs, node)
+        except E.Unsupported:
+            if ex.skeleton and (any(_tainted(ex, a) for a in args) or any(_tainted(ex, a) for a in kwargs.values())):
+                ex.abstraction_used = True
+                return Unknown(f'{getattr(f, "__name__", f)}(<uninterpreted>)')
+            raise
+    return wrapped
+
+
+_MC.call_native = _M.call_native = _skeleton_fallback(_MC.call_native)
+_MC.instantiate = _M.instantiate = _skeleton_fallback(_MC.instantiate)
